@@ -19,6 +19,9 @@ type SV struct {
 	Arr   *smt.Term // slices: content snapshot (Array BV64 elem); nil = read lazily from the context heap
 	Loc   *Loc      // pointers
 	Const *big.Int
+	// untyped conditional between two constants: c ? UA : UB
+	UCond  *smt.Term
+	UA, UB *big.Int
 }
 
 type scope struct {
@@ -165,6 +168,16 @@ func (e *Eval) arr(v SV) *smt.Term {
 
 // coerce an untyped constant to type t.
 func (e *Eval) coerce(v SV, t types.Type) SV {
+	if v.T == nil && v.Const == nil && v.UCond != nil {
+		if t == nil {
+			t = types.Typ[types.Int]
+		}
+		if !isInteger(t) {
+			e.fail("constant used as %s", t)
+		}
+		w := intWidth(t)
+		return SV{T: t, Term: smt.Ite(v.UCond, smt.BVLit(v.UA, w), smt.BVLit(v.UB, w))}
+	}
 	if v.T != nil || v.Const == nil {
 		return v
 	}
@@ -221,6 +234,9 @@ func (e *Eval) Eval(x spec.Expr) SV {
 		a, b = e.unify(a, b)
 		if a.T != nil && !types.Identical(a.T, b.T) && a.Term.Sort != b.Term.Sort {
 			e.fail("?: branches of different types %s / %s", a.T, b.T)
+		}
+		if a.T == nil && b.T == nil && a.Const != nil && b.Const != nil {
+			return SV{UCond: c, UA: a.Const, UB: b.Const}
 		}
 		if a.T == nil {
 			a, b = e.coerce(a, tInt), e.coerce(b, tInt)
@@ -468,6 +484,9 @@ func (e *Eval) binary(x *spec.Binary) SV {
 		return SV{Const: r}
 	}
 	a, b = e.unify(a, b)
+	if a.T == nil && b.T == nil {
+		a, b = e.coerce(a, tInt), e.coerce(b, tInt)
+	}
 	switch x.Op {
 	case "==", "!=":
 		eq := e.equal(a, b)
@@ -758,13 +777,25 @@ func (e *Eval) call(x *spec.Call) SV {
 			e.fail("fresh() needs an old state")
 		}
 		return boolSV(smt.IGe(r, e.Env.Next(e.Old)))
+	case "bits": // IEEE-754 bit pattern of a float (floats are modelled by their bits)
+		v := e.Eval(x.Args[0])
+		if !isFloat(v.T) {
+			e.fail("bits() of %s", v.T)
+		}
+		if v.Term.Sort.W == 32 {
+			return SV{T: types.Typ[types.Uint32], Term: v.Term}
+		}
+		return SV{T: types.Typ[types.Uint64], Term: v.Term}
 	case "extends": // out is a with elements appended: same backing position, or a fresh array
 		a, b := e.Eval(x.Args[0]), e.Eval(x.Args[1])
 		if e.Old == nil {
 			e.fail("extends() needs an old state")
 		}
-		same := smt.And(smt.Eq(SlRef(a.Term), SlRef(b.Term)), smt.Eq(SlOff(a.Term), SlOff(b.Term)), smt.Eq(SlCap(a.Term), SlCap(b.Term)))
-		return boolSV(smt.And(smt.BVUge(SlLen(a.Term), SlLen(b.Term)), smt.Or(same, smt.IGe(SlRef(a.Term), e.Env.Next(e.Old)))))
+		// The offset of a freshly allocated array is not observable; the append model keeps the
+		// offset of its first argument in both cases, so "same offset" holds unconditionally.
+		same := smt.And(smt.Eq(SlRef(a.Term), SlRef(b.Term)), smt.Eq(SlCap(a.Term), SlCap(b.Term)))
+		return boolSV(smt.And(smt.BVUge(SlLen(a.Term), SlLen(b.Term)), smt.Eq(SlOff(a.Term), SlOff(b.Term)),
+			smt.Or(same, smt.IGe(SlRef(a.Term), e.Env.Next(e.Old)))))
 	case "wraps":
 		a, b := e.Eval(x.Args[0]), e.Eval(x.Args[1])
 		e.P.D.AddFunc("wraps", smt.Bool, IfaceSort, IfaceSort)
